@@ -72,6 +72,9 @@ impl<T: 'static> PtrLocalRef<T> {
 unsafe impl<T: 'static> LocalRef<T> for PtrLocalRef<T> {
     #[inline]
     unsafe fn release_event(&self) {
+        #[cfg(folo_verif)]
+        crate::__verif::notify_release(std::ptr::from_ref::<UnsafeCell<LocalEvent<T>>>(self));
+
         // The storage is owned by whoever placed the event there and is reused without dropping
         // the event, so we clear its diagnostic state before we let go of it.
         #[cfg(debug_assertions)]
@@ -145,6 +148,9 @@ impl<T: 'static> BoxedLocalRef<T> {
 // Releasing frees the matching allocation once and does not touch the event afterwards.
 unsafe impl<T: 'static> LocalRef<T> for BoxedLocalRef<T> {
     unsafe fn release_event(&self) {
+        #[cfg(folo_verif)]
+        crate::__verif::notify_release(std::ptr::from_ref::<UnsafeCell<LocalEvent<T>>>(self));
+
         // The caller tells us that they are the last endpoint, so nothing else can possibly
         // be accessing the event any more. We can safely release the memory.
 
